@@ -147,6 +147,8 @@ class DocutilsRenderer(RendererProtocol):
         self._level_to_section: dict[int, nodes.Element] = {0: self.document}
         # mapping of section slug to (line, id, implicit_text)
         self._heading_slugs: dict[str, tuple[int | None, str, str]] = {}
+        # inventories are (lazily) loaded per render, from the render's configuration
+        self._inventories = None
 
     @property
     def sphinx_env(self) -> BuildEnvironment | None:
